@@ -268,6 +268,13 @@ def instantiate(unit, drops, extracted):
         injects[mm.group(1)] = mm.group(2)
         return ''
     tpl = re.sub(r'/\*@(?:inject|implspec) (\w+)\n(.*?)@\*/\n?', grab2, tpl, flags=re.S)
+    loopinvs = {}
+
+    def grab3(mm):
+        pre, _, inv = mm.group(2).partition('\n@@\n')
+        loopinvs[mm.group(1)] = (pre, inv)
+        return ''
+    tpl = re.sub(r'/\*@loopinv (\w+)\n(.*?)@\*/\n?', grab3, tpl, flags=re.S)
     out = []
     for line in tpl.split('\n'):
         s = line.strip()
@@ -296,6 +303,7 @@ def instantiate(unit, drops, extracted):
             addder = None
             inject = None
             intbytes = False
+            loopinv = None
             sliceeq = False
             dropbody = []
             for p in parts[2:]:
@@ -317,6 +325,8 @@ def instantiate(unit, drops, extracted):
                     addder = p[len('add-derive='):]
                 elif p == 'int-bytes':
                     intbytes = True
+                elif p.startswith('loop-invariant='):
+                    loopinv = p[len('loop-invariant='):]
                 elif p == 'slice-eq':
                     sliceeq = True
                 elif p.startswith('inject='):
@@ -338,6 +348,16 @@ def instantiate(unit, drops, extracted):
                 if k:
                     kk = 'renamed `.to_be_bytes()` / `.to_le_bytes()` calls to the trusted wrappers `.to_be_bytes__()` / `.to_le_bytes__()`'
                     drops[kk] = drops.get(kk, 0) + k
+            if loopinv:
+                pre, inv = loopinvs[loopinv]
+                lm = re.search(r'(?m)^(\s*)for _ in ([^{]+?) \{', item)
+                if not lm:
+                    raise extract.AnchorLost('loop `for _ in ..` not found for its invariant (%s)' % loopinv)
+                ind = lm.group(1)
+                item = (item[:lm.start()] + pre.rstrip() + '\n' + ind + 'for i__ in ' + lm.group(2) + '\n' + inv.rstrip() + '\n' + ind + '{'
+                        + item[lm.end():])
+                kk = 'loop `for _ in a..b` given the loop variable name `i__`, ghost declarations before it and an `invariant` clause (annotation only)'
+                drops[kk] = drops.get(kk, 0) + 1
             if sliceeq:
                 item, k = re.subn(r'\b(\w+) == (\[(?:0x[0-9A-Fa-f]+|\d+)(?:\s*,\s*(?:0x[0-9A-Fa-f]+|\d+))*\])', r'slice_eq__(\1, &\2)', item)
                 if k:
